@@ -24,15 +24,26 @@ type vWide struct {
 	manu      uint16
 }
 
-func vWideStream(extra int, hrLast bool) *vWide {
+func vWideStream(extra int, hrLast bool) *vWide { return vWideStreamSym(extra, hrLast, true) }
+
+// vWideStreamSym: with sym = false every byte is concrete (for the harnesses
+// that only watch where writes go: a checksum over 8 KiB with a symbolic
+// state is a term nobody needs).
+func vWideStreamSym(extra int, hrLast bool, sym bool) *vWide {
 	w := &vWide{}
+	nb := func(c byte) byte {
+		if sym {
+			return vByte()
+		}
+		return c
+	}
 	var body bytes.Buffer
 	// local 0: file_id
 	body.Write([]byte{0x40, 0, 0, 0, 0, byte(2 + extra), 0, 1, 0x00, 1, 2, 0x84})
 	for i := 0; i < extra; i++ {
 		body.Write([]byte{byte(200 + i), 255, 0x0D})
 	}
-	w.manu = vU16()
+	w.manu = uint16(nb(7)) | uint16(nb(1))<<8
 	body.Write([]byte{0x00, 4, byte(w.manu), byte(w.manu >> 8)})
 	for i := 0; i < extra; i++ {
 		for k := 0; k < 255; k++ {
@@ -50,7 +61,7 @@ func vWideStream(extra int, hrLast bool) *vWide {
 			body.Write([]byte{byte(100 + i), 1, 0x0D})
 		}
 	}
-	w.hr[0], w.hr[1], w.hr[2], w.hr[3] = vByte(), vByte(), vByte(), vByte()
+	w.hr[0], w.hr[1], w.hr[2], w.hr[3] = nb(101), nb(102), nb(103), nb(104)
 	body.WriteByte(0x01)
 	for i := 0; i < 90; i++ {
 		isHr := (i == 0 && !hrLast) || (i == 89 && hrLast)
@@ -76,12 +87,35 @@ func vWideStream(extra int, hrLast bool) *vWide {
 	var out bytes.Buffer
 	out.Write(hdr)
 	out.Write(body.Bytes())
-	fc := dyncrc16.Checksum(out.Bytes())
+	var fc uint16
+	if sym {
+		fc = dyncrc16.Checksum(out.Bytes())
+	} else {
+		// the harness's own bit-serial CRC-16/ARC, so that building the
+		// stream leaves no trace in the library (a lazily built table would
+		// already exist when the calls under observation start)
+		fc = vCRC16(out.Bytes())
+	}
 	out.Write([]byte{byte(fc), byte(fc >> 8)})
 	w.frame = out.Len()
 	out.Write([]byte{0xAA, 0xBB}) // bytes after the frame that nobody may ask for
 	w.data = out.Bytes()
 	return w
+}
+
+func vCRC16(p []byte) uint16 {
+	var c uint16
+	for _, b := range p {
+		c ^= uint16(b)
+		for k := 0; k < 8; k++ {
+			if c&1 != 0 {
+				c = c>>1 ^ 0xA001
+			} else {
+				c >>= 1
+			}
+		}
+	}
+	return c
 }
 
 func (w *vWide) check(f *File, id string) {
@@ -139,10 +173,10 @@ func Hwide() {
 // that exists before the call, and a stream decodes to the same values after
 // the other one was decoded.
 func Hwide8() {
-	vUnwind(20000)
+	vUnwind(200000)
 	// (17 extra fields: the data area is larger than 8 KiB)
-	a := vWideStream(17, false)
-	b := vWideStream(17, true)
+	a := vWideStreamSym(17, false, false)
+	b := vWideStreamSym(17, true, false)
 	vResetAccumulators()
 	vTrackShared(true)
 	var fa, fb *File
